@@ -33,8 +33,8 @@ META = {
         "the library's real locks are replaced by cooperative locks with the same mutual-exclusion semantics",
     ],
     "bound": {
-        "quick": "R1: preemption bound 2 for H1 H4, bound 1 for H2 H3 H5 H6; R2: bound 0 (all non-preemptive orders)",
-        "thorough": "R1: bound 3 for H1 H4, bound 2 for H2 H3 H5 H6; R2: bound 1 for all harnesses",
+        "quick": "R1: preemption bound 2 for H1 H4, bound 1 for H2 H3 H5 H6 H7 H8; R2: bound 0 (all non-preemptive orders)",
+        "thorough": "R1: bound 3 for H1 H4, bound 2 for the others; R2: bound 1 for all harnesses",
     },
 }
 
@@ -48,6 +48,17 @@ ANCHORED = (
 R1_FUNCS = {
     "cached_call", "get_loader", "get_dumper", "get_converter", "set_func", "generate_idx", "_compile", "_get_unique_id",
     "_provide_from_recipe",
+}
+# region R1 additionally contains EVERY function of the files that own retort-wide state, except the ones below, which are
+# known to work on per-request objects only and are called once per sub-request (they would only multiply commuting points).
+# A function that a change adds to these files is therefore a scheduling region by default.
+R1_WHOLE_FILES = ("retort/searching_retort.py", "morphing/facade/retort.py", "conversion/facade/retort.py")
+R1_CONFINED = {
+    "mediator_factory", "_create_request_bus", "_create_mediator", "_create_no_request_bus_error_maker", "no_request_bus_error_maker",
+    "_exception_walk", "_get_exception_cause", "_extract_demonstrative_exc", "_create_recursion_resolver", "trail_rendering_wrapper",
+    "load", "dump", "convert", "retort_request_handler", "get_request_handlers", "__init__", "_calculate_derived",
+    "_create_request_cls_to_router", "_create_router", "_create_error_representor", "_get_recipe_tail", "_get_recipe_head",
+    "_get_full_recipe", "<lambda>", "<genexpr>", "<listcomp>", "<dictcomp>", "<setcomp>",
 }
 ALL_FILES = (*ANCHORED, "conversion/facade/retort.py")
 
@@ -171,7 +182,35 @@ def h6():
     return [body, body], {"retort": r, "post": lambda: [repr(r.get_converter(Src, Dst)(SRC_OBJ))]}
 
 
-HARNESSES = {"H1": h1, "H2": h2, "H3": h3, "H4": h4, "H5": h5, "H6": h6}
+@dataclass
+class Tree:
+    name: str
+    root: Node
+
+
+TREE_DATA = {"name": "t", "root": NODE_DATA}
+
+
+def h7():
+    """different but overlapping types: Tree contains the recursive Node, the other thread asks for Node itself"""
+    _fresh_world()
+    r = Retort()
+    return ([lambda: repr(r.load(TREE_DATA, Tree)), lambda: repr(r.load(NODE_DATA, Node))],
+            {"retort": r, "post": lambda: [repr(r.load(TREE_DATA, Tree)), repr(r.load(NODE_DATA, Node))]})
+
+
+def h8():
+    """a retort included into another retort: one thread goes through the including retort, the other uses it directly"""
+    _fresh_world()
+    from adaptix import bound
+    inner = Retort()
+    outer = Retort(recipe=[bound(Node, inner)])
+    return ([lambda: repr(outer.load(NODE_DATA, Node)), lambda: repr(inner.load(NODE_DATA, Node))],
+            {"retort": inner, "post": lambda: [repr(outer.load(NODE_DATA, Node)), repr(inner.load(NODE_DATA, Node)),
+                                               repr(outer.dump(NODE_OBJ, Node))]})
+
+
+HARNESSES = {"H1": h1, "H2": h2, "H3": h3, "H4": h4, "H5": h5, "H6": h6, "H7": h7, "H8": h8}
 
 _EXPECTED = {}
 
@@ -191,8 +230,19 @@ def expected(hname):
     return _EXPECTED[hname]
 
 
+class R1Region(sched.Region):
+    def _wants(self, code):
+        fn = code.co_filename
+        if not fn.startswith(sched.SRC_PREFIX):
+            return False
+        rel = fn[len(sched.SRC_PREFIX):]
+        if rel in R1_WHOLE_FILES:
+            return code.co_name not in R1_CONFINED or code.co_name in R1_FUNCS
+        return rel in self.files and code.co_name in R1_FUNCS
+
+
 REGIONS = {
-    "R1": lambda: sched.Region(ALL_FILES, R1_FUNCS, "R1"),
+    "R1": lambda: R1Region(ALL_FILES, R1_FUNCS, "R1"),
     "R2": lambda: sched.Region(ANCHORED, None, "R2"),
 }
 
@@ -260,9 +310,11 @@ def explore_shard(args):
 
 PLAN = {
     "quick": [("H1", "R1", 2), ("H4", "R1", 2), ("H2", "R1", 1), ("H3", "R1", 1), ("H5", "R1", 1), ("H6", "R1", 1),
-              ("H1", "R2", 0), ("H2", "R2", 0)],
+              ("H7", "R1", 1), ("H8", "R1", 1), ("H1", "R2", 0), ("H2", "R2", 0)],
     "thorough": [("H1", "R1", 3), ("H4", "R1", 3), ("H2", "R1", 2), ("H3", "R1", 2), ("H5", "R1", 2), ("H6", "R1", 2),
-                 ("H1", "R2", 1), ("H2", "R2", 1), ("H3", "R2", 1), ("H4", "R2", 1), ("H5", "R2", 1), ("H6", "R2", 1)],
+                 ("H7", "R1", 2), ("H8", "R1", 2),
+                 ("H1", "R2", 1), ("H2", "R2", 1), ("H3", "R2", 1), ("H4", "R2", 1), ("H5", "R2", 1), ("H6", "R2", 1),
+                 ("H7", "R2", 1), ("H8", "R2", 1)],
 }
 
 
